@@ -6,33 +6,64 @@ in three ways (in-line FFI, emit_python_code() module, compiled API module)
 and every enumerator, the size and signedness of the enum type are compared;
 ffi.string() of enum cdata is compared with a small model (first declared name
 of the value, else the decimal number) driven by gcc's facts.
+
+Besides the plain pass of the three modes every cdef of two or more
+declarations gets one 'history' pass: the same declarations reach the ffi in
+two steps (a second cdef() after the library object exists and was used, or
+ffi.include() of an FFI that holds the first part, in-line and out-of-line
+ABI).
 """
 import os, sys, random, subprocess
 from vlib import core, cc, modbuild
 
-RULE = ("case = (one enum declaration, mode); a generated cdef holds 0-2 '#define' integer macros "
-        "and 1-3 enums of 1-12 enumerators ('enum tag {..}', 'typedef enum {..} t', 'typedef enum "
-        "tag {..} t', anonymous); enumerator = implicit | decimal/hex/octal/binary literal with any "
-        "u/l suffix | -literal | +literal | character constant | earlier enumerator or macro X | "
-        "-X | X+k | X-k | INT_MIN/LLONG_MIN written as -MAX - 1 (an implicit value never steps "
+RULE = ("case = (one enum declaration, mode or history variant); a generated cdef holds 0-2 "
+        "'#define' integer macros and 1-3 enums of 1-12 enumerators (2.5%: 13-400 enumerators, so "
+        "that the list of names is longer than one, two, many source lines of the generated "
+        "module), forms 'enum tag {..}', 'typedef enum {..} t', 'typedef enum tag {..} t' (both "
+        "names judged), anonymous, 'enum tag {..}' + 'typedef enum tag a; typedef a b;', an enum "
+        "declared as the type of a struct field (tagged, or anonymous: then the type is reached "
+        "through typeof(struct).fields only); names 'cN_Ej_k' or varied (1-60 characters, names "
+        "that are prefixes of each other, tag equal to an enumerator name); enumerator = implicit "
+        "| decimal/hex/octal/binary literal with any "
+        "u/l suffix | -literal | +literal | character constant (also '\\1'..'\\7') | earlier "
+        "enumerator or macro X | -X | X+k | X-k | INT_MIN/LLONG_MIN written as -MAX - 1 | an "
+        "expression tree of depth <= 3 over * / % << >> & | ^ + - unary-minus and parentheses "
+        "(minimal or redundant, with or without blanks) whose leaves are int literals and "
+        "int-valued X and whose every intermediate value is an int (negative operands of / % >> "
+        "included) (an implicit value never steps "
         "over 2**31, 2**32, 2**63, 2**64: gcc rejects an increment that overflows the type of the "
         "previous enumerator); values over the boundaries of "
         "int/unsigned/long/unsigned long (+-2), small and random k-bit numbers, 15% duplicates, "
         "in a regime s32/u32/s64/u64 that keeps the set inside one 64-bit type; modes: in-line "
         "(lib attribute of dlopen(None)), out-of-line ABI (lib attribute, integer_const), API "
-        "(lib attribute, integer_const); per mode sizeof, signedness, ctype.elements/relements, "
+        "(lib attribute, integer_const); history variants (one per cdef of >= 2 declarations): "
+        "in-line with the declarations after a random split point given to a second cdef() once "
+        "the lib object exists and the first part was used; in-line and out-of-line ABI with the "
+        "first part in another FFI that is ffi.include()d; for half of the cdefs the enum ctypes "
+        "are realized before the first enumerator is read; per mode sizeof, signedness, "
+        "ctype.elements/relements (through every way of naming the type), "
         "ffi.string of every declared value, its neighbours, type limits and random (also "
-        "wrapping) integers; distinct = (declaration text, mode); non-trivial = more than one "
-        "enumerator or a non-zero value")
+        "wrapping) integers, of enum cdata cast from another cdata; ffi.sizeof('char[X]') for up "
+        "to 3 enumerators X with 0 <= X < 2**62; distinct = (declaration text, mode/variant); "
+        "non-trivial = more than one enumerator or a non-zero value")
 VARIANT = 'plain'
 ASSUMPTIONS = ["gcc (-std=gnu11 for the probe, its default for API modules) is the C compiler; on "
                "the thorough tier a gcc/clang disagreement drops the declaration (counted)",
                "every literal has a C type without a diagnostic (no unsuffixed decimal above "
-               "LLONG_MAX); X+k / -X only with int-valued operands and results",
+               "LLONG_MAX); X+k / -X and the operator expressions only with int-valued operands "
+               "and results, shift counts 0..30, no left shift of a negative number, no division "
+               "by zero (everything else is typed arithmetic that cffi's parser documents not to "
+               "model, see the known finding); no operand of an operator expression is, or derives "
+               "from, the negation of an unsigned literal (the known finding: with cffi's value of "
+               "it a division or shift by it makes the whole cdef() fail)",
                "an enumerator whose value already differs is not used to judge the enum's type "
                "or ffi.string, nor the enumerators derived from it (implicit successor, X, -X, "
-               "X+k), nor a later failure to emit/build the same cdef (consequences of the same "
-               "defect, counted)",
+               "X+k, expressions), nor a later failure to emit/build the same cdef "
+               "(consequences of the same defect, counted)",
+               "a history variant reports under the mechanism of its base mode (in-line / abi): "
+               "the way the declarations reached the ffi is part of the message",
+               "ffi.include() is exercised in-line and out-of-line ABI only (an API pair of "
+               "modules re-emits the included enum in the including module)",
                "runs on the plain (gcc) backend: memory safety is not part of the statement"]
 
 I31, I32, I63, I64 = 1 << 31, 1 << 32, 1 << 63, 1 << 64
@@ -43,8 +74,16 @@ SUFFIXES = ['u', 'U', 'l', 'L', 'ul', 'UL', 'lu', 'Lu', 'll', 'LL', 'ull', 'ULL'
 ESCAPES = {'n': 10, 't': 9, '0': 0, 'r': 13, 'a': 7, 'b': 8, 'f': 12, 'v': 11}
 SELF_ESCAPES = ['\\', "'", '"', '?']
 KINDS = ['implicit'] * 12 + ['lit'] * 16 + ['neg'] * 6 + ['ref'] * 6 + ['refexpr'] * 3 + \
-    ['plus', 'char', 'char', 'charesc', 'charesc-self', 'negref', 'negref', 'expr-min', 'expr-min']
+    ['plus', 'char', 'char', 'charesc', 'charesc-self', 'negref', 'negref', 'expr-min', 'expr-min'] + \
+    ['binop'] * 9 + ['charesc-octal']
 MODES = ('inline', 'abi', 'api')
+VARIANTS = ('inline-incremental', 'inline-include', 'abi-include')
+OPS = {'*': ('mul', 10), '/': ('div', 10), '%': ('mod', 10), '+': ('add', 9), '-': ('sub', 9),
+       '<<': ('shl', 8), '>>': ('shr', 8), '&': ('and', 7), '^': ('xor', 6), '|': ('or', 5)}
+OP_CHOICE = ['*', '/', '/', '/', '%', '%', '%', '<<', '>>', '>>', '&', '|', '^', '+', '-']
+FORMS = ['tag'] * 3 + ['typedef'] * 2 + ['typedef-tag'] * 2 + ['anon'] * 2 + \
+    ['field-tag', 'field-anon', 'alias']
+IDCHARS = 'abcdefghijklmnopqrstuvwxyzABCDEFGHIJKLMNOPQRSTUVWXYZ0123456789_'
 
 
 # ---------------------------------------------------------------- generator
@@ -89,8 +128,119 @@ def literal(rng, m):
     return render(rng, m, base) + suf, kind, t
 
 
-def enumerator(rng, lo, hi, prev, pool, dup):
-    """-> (expression or None, kind, value according to C, name referred to or None)"""
+# -- operator expressions: trees ('lit', text, v) | ('name', n, v) | ('neg', x) | ('bin', op, l, r)
+
+def c_binop(op, a, b, tags):
+    """value of `a op b` on C ints, None where C leaves int or is undefined"""
+    if op in '/%':
+        if b == 0:
+            return None
+        q = abs(a) // abs(b)
+        if (a < 0) != (b < 0):
+            q = -q
+            if a % b:
+                tags.add(OPS[op][0] + '-where-truncation-differs-from-floor')
+        r = q if op == '/' else a - q * b
+    elif op in ('<<', '>>'):
+        if not 0 <= b <= 30 or (a < 0 and op == '<<'):
+            return None
+        if a < 0:
+            tags.add('shr-of-negative')
+        r = a << b if op == '<<' else a >> b
+    else:
+        r = {'*': a * b, '+': a + b, '-': a - b, '&': a & b, '|': a | b, '^': a ^ b}[op]
+    return r if -I31 < r < I31 else None
+
+
+def expr_eval(node, tags, refs):
+    k = node[0]
+    if k == 'lit':
+        return node[2]
+    if k == 'name':
+        refs.add(node[1])
+        return node[2]
+    if k == 'neg':
+        v = expr_eval(node[1], tags, refs)
+        if node[1][0] == 'bin':
+            tags.add('neg-of-parenthesised')
+        return None if v is None else -v
+    a, b = expr_eval(node[2], tags, refs), expr_eval(node[3], tags, refs)
+    if a is None or b is None:
+        return None
+    tags.add('op-' + OPS[node[1]][0])
+    if (a < 0 or b < 0) and node[1] in ('&', '|', '^'):
+        tags.add('bitop-of-negative')
+    return c_binop(node[1], a, b, tags)
+
+
+def expr_leaf(rng, names, small=False):
+    if names and rng.random() < 0.35 and not small:
+        n, v = rng.choice(names)
+        node = ('name', n, v)
+    else:
+        v = rng.choice([rng.randint(0, 9), rng.randint(1, 40), rng.randint(0, 1000),
+                        rng.getrandbits(rng.randint(1, 30)), 1, 2, 3, 7, 8, 255, 256, 65535]) \
+            if not small else rng.randint(0, 12)
+        node = ('lit', render(rng, v, rng.choice([10, 10, 10, 16, 8])), v)
+    if rng.random() < 0.3 and not small:
+        node = ('neg', node)
+    return node
+
+
+def expr_tree(rng, names, depth, top=False):
+    if not top and (depth <= 0 or rng.random() < 0.4):
+        return expr_leaf(rng, names)
+    op = rng.choice(OP_CHOICE)
+    left = expr_tree(rng, names, depth - 1)
+    right = expr_leaf(rng, names, small=True) if op in ('<<', '>>') and rng.random() < 0.9 \
+        else expr_tree(rng, names, depth - 1)
+    node = ('bin', op, left, right)
+    if rng.random() < 0.1:
+        node = ('neg', node)
+    return node
+
+
+def expr_text(rng, node, sp, parent=0, right=False, under_neg=False):
+    k = node[0]
+    if k == 'lit':
+        s = node[1]
+        if not sp and s[:2].lower() == '0x' and s[-1] in 'eE':
+            s = '(%s)' % s           # '0xE+1' is one (invalid) preprocessing number
+        return s
+    if k == 'name':
+        return node[1]
+    if k == 'neg':
+        s = '-' + expr_text(rng, node[1], sp, 11, False, True)
+        return '(%s)' % s if right or under_neg or rng.random() < 0.1 else s
+    p = OPS[node[1]][1]
+    s = expr_text(rng, node[2], sp, p, False) + sp + node[1] + sp + expr_text(rng, node[3], sp, p, True)
+    if p < parent or (p == parent and right) or rng.random() < 0.15:
+        s = '(%s)' % s
+    return s
+
+
+def gen_binop(rng, pool, dirty):
+    # no operand whose value cffi is already known to get wrong (see `dirty` in gen_context):
+    # a division by it, or a shift by it, makes the whole cdef() fail
+    names = [(n, v) for n, v in pool if abs(v) < I31 - 1000 and n not in dirty]
+    for _ in range(30):
+        node = expr_tree(rng, names, rng.choice([1, 1, 2, 2, 3]), top=True)
+        tags, refs = set(), set()
+        v = expr_eval(node, tags, refs)
+        if v is not None:
+            sp = rng.choice([' ', ' ', ''])
+            if not sp:
+                tags.add('no-blanks')
+            text = expr_text(rng, node, sp)
+            if '--' in text:         # a decrement operator: keep the two minus signs apart
+                text = expr_text(rng, node, ' ')
+                tags.discard('no-blanks')
+            return text, 'binop', v, sorted(refs), sorted(tags)
+    return None
+
+
+def enumerator(rng, lo, hi, prev, pool, dup, dirty=()):
+    """-> (expression or None, kind, value according to C, [names referred to], [tags])"""
     for _ in range(200):
         k = rng.choice(KINDS)
         r = None
@@ -116,32 +266,60 @@ def enumerator(rng, lo, hi, prev, pool, dup):
         elif k == 'charesc':
             ch = rng.choice(sorted(ESCAPES))
             r = ("'\\%s'" % ch, k, ESCAPES[ch])
+        elif k == 'charesc-octal':
+            d = rng.randint(1, 7)
+            r = ("'\\%d'" % d, k, d)
         elif k == 'charesc-self':
             ch = rng.choice(SELF_ESCAPES)
             r = ("'\\%s'" % ch, k, ord(ch))
         elif k == 'expr-min':
             r = rng.choice([('-2147483647 - 1', k, -I31), ('-9223372036854775807 - 1', k, -I63),
                             ('-0x7fffffffffffffffL - 1', k, -I63), ('-2147483647-1', k, -I31)])
+        elif k == 'binop':
+            r = gen_binop(rng, pool, dirty)
         elif pool:
             name, v = rng.choice(pool)
             if k == 'ref':
-                r = (name, k, v, name)
+                r = (name, k, v, [name])
             elif abs(v) < I31 - 1000:
                 if k == 'negref':
-                    r = ('-' + name, k, -v, name)
+                    r = ('-' + name, k, -v, [name])
                 else:
                     d = rng.randint(1, 100)
-                    r = ('%s + %d' % (name, d), k, v + d, name) if rng.random() < 0.5 else \
-                        ('%s - %d' % (name, d), k, v - d, name)
+                    r = ('%s + %d' % (name, d), k, v + d, [name]) if rng.random() < 0.5 else \
+                        ('%s - %d' % (name, d), k, v - d, [name])
         if r is not None and lo <= r[2] <= hi:
-            return r if len(r) == 4 else r + (None,)
-    return ('0', 'dec', 0, None)
+            return tuple(r) + ([], [])[len(r) - 3:]
+    return ('0', 'dec', 0, [], [])
+
+
+def make_names(rng, p, j, n, style):
+    if style == 'plain':
+        return ['%sE%d_%d' % (p, j, k) for k in range(n)]
+    stem = '%s%d%s' % (p, j, rng.choice(['E', 'e', 'Val', '_', 'X_Y_', 'k', '__']))
+    out, seen = [], set()
+    while len(out) < n:
+        r = rng.random()
+        if out and r < 0.35:           # a name that extends an existing one
+            nm = rng.choice(out) + rng.choice(['_', '0', 'A', 'a', '_%d' % len(out), '__',
+                                               'x' * rng.randint(1, 30)])
+        elif r < 0.55:
+            nm = stem + ''.join(rng.choice(IDCHARS) for _ in range(rng.randint(1, 60)))
+        elif style == 'long':
+            nm = stem + '%d_' % len(out) + rng.choice(IDCHARS) * rng.randint(20, 50)
+        else:
+            nm = stem + '%d' % len(out)
+        if nm not in seen and len(nm) < 120:
+            seen.add(nm)
+            out.append(nm)
+    return out
 
 
 def gen_context(i, seed):
     rng = random.Random(seed)
     p = 'c%d_' % i
     lines, pool, enums = [], [], []
+    dirty = set()      # enumerators that are, or derive from, the negation of an unsigned literal
     for j in range(rng.choice([0, 0, 1, 2])):
         v = pick(rng, -I63 + 1, I64 - 1)
         text = '%d' % v if v < I63 and rng.random() < 0.6 else ('0x%x' % v if v >= 0 else '%d' % v)
@@ -151,43 +329,90 @@ def gen_context(i, seed):
         regime = rng.choice(['s32', 's32', 'u32', 'u32', 's64', 's64', 'u64'])
         lo, hi = REGIMES[regime]
         n = min(rng.randint(1, 12), rng.randint(1, 14))
-        names, exprs, kinds, vals, refs = [], [], [], [], []
+        if rng.random() < 0.025:
+            n = rng.choice([rng.randint(13, 40), rng.randint(13, 40), rng.randint(41, 150),
+                            rng.randint(150, 400)])
+        style = rng.choice(['plain', 'plain', 'plain', 'varied', 'long'])
+        names = make_names(rng, p, j, n, style)
+        exprs, kinds, vals, refs, tags = [], [], [], [], []
         own = []
         for k in range(n):
             dup = rng.choice(vals) if vals and rng.random() < 0.15 else None
-            r = enumerator(rng, lo, hi, vals[-1] if vals else None, pool + own, dup)
-            name = '%sE%d_%d' % (p, j, k)
-            names.append(name); exprs.append(r[0]); kinds.append(r[1]); vals.append(r[2])
-            refs.append(r[3])
-            own.append((name, r[2]))
+            r = enumerator(rng, lo, hi, vals[-1] if vals else None, pool + own, dup, dirty)
+            if r[1] == 'neg-unsigned-literal' or dirty.intersection(r[3]) or \
+                    (r[1] == 'implicit' and k and names[k - 1] in dirty):
+                dirty.add(names[k])
+            exprs.append(r[0]); kinds.append(r[1]); vals.append(r[2])
+            refs.append(r[3]); tags.append(r[4])
+            own.append((names[k], r[2]))
         body = ', '.join(nm if ex is None else '%s = %s' % (nm, ex) for nm, ex in zip(names, exprs))
         if rng.random() < 0.2:
             body += ','
-        form = rng.choice(['tag', 'tag', 'typedef', 'typedef-tag', 'anon'])
-        tag, td = '%se%d' % (p, j), '%st%d' % (p, j)
+        form = rng.choice(FORMS)
+        tag, td, st = '%se%d' % (p, j), '%st%d' % (p, j), 'struct %ss%d' % (p, j)
+        if form in ('tag', 'alias', 'field-tag') and rng.random() < 0.1:
+            tag = rng.choice(names)      # tags and enumerators live in different name spaces
+        more = []
         if form == 'tag':
-            decl, T = 'enum %s { %s };' % (tag, body), 'enum ' + tag
+            decl, types = 'enum %s { %s };' % (tag, body), [['name', 'enum ' + tag]]
         elif form == 'typedef':
-            decl, T = 'typedef enum { %s } %s;' % (body, td), td
+            decl, types = 'typedef enum { %s } %s;' % (body, td), [['name', td]]
         elif form == 'typedef-tag':
-            decl, T = 'typedef enum %s { %s } %s;' % (tag, body, td), rng.choice(['enum ' + tag, td])
+            decl = 'typedef enum %s { %s } %s;' % (tag, body, td)
+            types = [['name', 'enum ' + tag], ['name', td]]
+            rng.shuffle(types)
+        elif form == 'alias':
+            decl = 'enum %s { %s };' % (tag, body)
+            more = ['typedef enum %s %sa%d;' % (tag, p, j)]
+            types = [['name', 'enum ' + tag], ['name', '%sa%d' % (p, j)]]
+            if rng.random() < 0.5:
+                more.append('typedef %sa%d %sb%d;' % (p, j, p, j))
+                types.append(['name', '%sb%d' % (p, j)])
+            rng.shuffle(types)
+        elif form in ('field-tag', 'field-anon'):
+            head = rng.choice(['', 'char h; ', 'int h; ', 'long h; '])
+            tail = rng.choice(['', ' char t;', ' short t;'])
+            decl = '%s { %senum %s{ %s } f;%s };' % (st, head, tag + ' ' if form == 'field-tag'
+                                                     else '', body, tail)
+            types = [['field', st, 'f']]
+            if form == 'field-tag':
+                types.append(['name', 'enum ' + tag])
+                rng.shuffle(types)
         else:
-            decl, T = 'enum { %s };' % body, None
+            decl, types = 'enum { %s };' % body, []
+        enums.append({'decl': decl, 'types': types, 'form': form, 'regime': regime, 'names': names,
+                      'kinds': kinds, 'vals': vals, 'refs': refs, 'tags': tags, 'style': style,
+                      'line': len(lines), 'tag_is_name': tag in names})
         lines.append(decl)
+        lines += more
         pool += own
-        enums.append({'decl': decl, 'type': T, 'form': form, 'regime': regime, 'names': names,
-                      'kinds': kinds, 'vals': vals, 'refs': refs})
-    return {'id': i, 'seed': seed, 'text': '\n'.join(lines) + '\n', 'enums': enums}
+    return {'id': i, 'seed': seed, 'text': '\n'.join(lines) + '\n', 'lines': lines, 'enums': enums}
+
+
+def variant_of(c):
+    """the history pass of this cdef: (label, number of declarations in the first step)"""
+    n = len(c['lines'])
+    if n < 2:
+        return None
+    return VARIANTS[c['seed'] % 3], 1 + (c['seed'] // 3) % (n - 1)
+
+
+def types_first(c):
+    return bool((c['seed'] >> 7) & 1)
 
 
 # ---------------------------------------------------------------- gcc oracle
 
+def c_type(spec):
+    return spec[1] if spec[0] == 'name' else '__typeof__(((%s *)0)->%s)' % (spec[1], spec[2])
+
+
 def probe_unit(c):
     st = []
     for j, e in enumerate(c['enums']):
-        if e['type']:
-            st.append('printf("T %d %%zu %%d\\n", sizeof(%s), ((%s)-1) < 0);' %
-                      (j, e['type'], e['type']))
+        for t, spec in enumerate(e['types']):
+            T = c_type(spec)
+            st.append('printf("T %d %d %%zu %%d\\n", sizeof(%s), ((%s)-1) < 0);' % (j, t, T, T))
         for n in e['names']:
             st.append('printf("V %d %%d %%llu\\n", (%s) < 0, (unsigned long long)(%s));' %
                       (j, n, n))
@@ -195,12 +420,12 @@ def probe_unit(c):
 
 
 def facts(c, lines):
-    out = [{'size': None, 'signed': None, 'values': []} for e in c['enums']]
+    out = [{'types': [None] * len(e['types']), 'values': []} for e in c['enums']]
     for line in lines:
         p = line.split()
         g = out[int(p[1])]
         if p[0] == 'T':
-            g['size'], g['signed'] = int(p[2]), p[3] == '1'
+            g['types'][int(p[2])] = [int(p[3]), p[4] == '1']
         else:
             g['values'].append(int(p[3]) - I64 if p[2] == '1' else int(p[3]))
     return out
@@ -224,8 +449,8 @@ def oracle(ctx, ctxs):
             e['gcc'] = g
             if g['values'] != e['vals']:
                 ctx.count('generator_value_model_differs_from_gcc')
-                ctx.note('generator expected %r, gcc says %r: %s' % (e['vals'], g['values'],
-                                                                     e['decl']))
+                ctx.note('generator expected %r, gcc says %r: %s' % (e['vals'][:40], g['values'][:40],
+                                                                     e['decl'][:600]))
         out.append(c)
     if len(out) < len(ctxs) * 0.98:
         raise core.Inconclusive('generator produces too many declarations gcc rejects')
@@ -302,14 +527,14 @@ def build_api(ctx, cases, failed, tag=''):
 def generate(ctx):
     import concurrent.futures as cf
     rng = ctx.rng('gen')
-    n = ctx.scale(400, 10000)
+    n = ctx.scale(340, 10000)
     ctxs = [gen_context(i, rng.getrandbits(48)) for i in range(n)]
     ctx.tmp
     with cf.ThreadPoolExecutor(2) as ex:       # gcc oracle and recompiler screening side by side
         fo, fs = ex.submit(oracle, ctx, ctxs), ex.submit(screen, ctx, ctxs)
         ctxs, failed = fo.result(), fs.result()
     ctx.count('cdefs_rejected_by_the_recompiler_in_api_mode', len(failed))
-    per = ctx.scale(25, 200)     # a compile costs about 2 s whatever the size
+    per = ctx.scale(22, 200)     # a compile costs about 2 s whatever the size
     cases = [{'no': i // per, 'ctxs': ctxs[i:i + per]} for i in range(0, len(ctxs), per)]
     build_api(ctx, cases, failed)
     return None, cases
@@ -340,26 +565,90 @@ def model_string(names, values, bits, signed, v):
     return str(v)
 
 
-def open_mode(mode, c, st, mods):
-    """-> (ffi, [(label, getter of an enumerator)])"""
+def get_ctype(ffi, spec):
+    if spec[0] == 'name':
+        return ffi.typeof(spec[1])
+    return dict(ffi.typeof(spec[1]).fields)[spec[2]].type
+
+
+def spec_label(spec):
+    return spec[1] if spec[0] == 'name' else 'the type of %s.%s' % (spec[1], spec[2])
+
+
+def touch(ffi, lib, enums):
+    """use what is declared so far: the first and the last enumerator and the ctype
+    of every enum (the results are judged later, through the same objects)"""
+    for e in enums:
+        for n in (e['names'][0], e['names'][-1]) if lib is not None else ():
+            try:
+                getattr(lib, n)
+            except Exception:
+                pass
+        for spec in e['types']:
+            try:
+                get_ctype(ffi, spec).relements
+            except Exception:
+                pass
+
+
+def emit_abi(fb, name, st):
+    path = os.path.join(st['wd'], name + '.py')
+    fb.set_source(name, None)
+    fb.emit_python_code(path)
+    sys.modules.pop(name, None)
+    return path
+
+
+def open_mode(mode, c, st, mods, rep):
+    """-> (ffi, [(label, getter of an enumerator)]); mode is one of MODES or VARIANTS"""
     import importlib
     from cffi import FFI
+    if mode in VARIANTS:
+        k = variant_of(c)[1]
+        first, second = '\n'.join(c['lines'][:k]) + '\n', '\n'.join(c['lines'][k:]) + '\n'
+        early = [e for e in c['enums'] if e['line'] < k]
+        rep.stat('variant_enums_declared_in_the_first_step', len(early))
+        rep.stat('variant_enums_declared_in_the_second_step', len(c['enums']) - len(early))
     if mode == 'inline':
         ffi = FFI()
         ffi.cdef(c['text'])
+        lib = ffi.dlopen(None)
+        return ffi, [('lib', lambda n: getattr(lib, n))]
+    if mode == 'inline-incremental':
+        ffi = FFI()
+        ffi.cdef(first)
+        lib = ffi.dlopen(None)
+        touch(ffi, lib, early)
+        ffi.cdef(second)
+        return ffi, [('lib', lambda n: getattr(lib, n))]
+    if mode == 'inline-include':
+        base = FFI()
+        base.cdef(first)
+        ffi = FFI()
+        ffi.include(base)
+        ffi.cdef(second)
         lib = ffi.dlopen(None)
         return ffi, [('lib', lambda n: getattr(lib, n))]
     if mode == 'abi':
         fb = FFI()
         fb.cdef(c['text'])
         name = '_c10abi_%d' % c['id']
-        fb.set_source(name, None)
-        path = os.path.join(st['wd'], name + '.py')
-        fb.emit_python_code(path)
-        sys.modules.pop(name, None)
+        paths = [emit_abi(fb, name, st)]
+    elif mode == 'abi-include':
+        base = FFI()
+        base.cdef(first)
+        fb = FFI()
+        fb.include(base)
+        fb.cdef(second)
+        name = '_c10abi_%dd' % c['id']
+        paths = [emit_abi(base, '_c10abi_%db' % c['id'], st), emit_abi(fb, name, st)]
+    if mode in ('abi', 'abi-include'):
         importlib.invalidate_caches()
-        ffi = importlib.import_module(name).ffi
-        os.unlink(path)
+        try:
+            ffi = importlib.import_module(name).ffi
+        finally:
+            for path in paths:
+                os.unlink(path)
         lib = ffi.dlopen(None)
     else:
         m = mods[c['id']]
@@ -367,15 +656,63 @@ def open_mode(mode, c, st, mods):
     return ffi, [('lib', lambda n: getattr(lib, n)), ('integer_const', ffi.integer_const)]
 
 
-def check_enum(rep, mode, ffi, getters, c, e, bad, taint):
+def check_strings(rep, mode, base, ffi, T, Tl, c, e, bits, signed, bad):
+    """ffi.string() of enum cdata of the type T (a name or a ctype)"""
+    names, gvals = e['names'], e['gcc']['values']
+    rnd = random.Random(c['seed'] ^ len(names))
+    lo, hi = (-(1 << (bits - 1)), (1 << (bits - 1)) - 1) if signed else (0, (1 << bits) - 1)
+    probes = set(gvals)
+    for v in gvals:
+        probes.update(x for x in (v - 1, v + 1) if lo <= x <= hi)
+    probes.update([lo, hi, 0, -1, lo - 1, hi + 1, rnd.randint(lo, hi), rnd.randint(-I63, I64 - 1),
+                   rnd.randint(-300, 300)])
+    count, index, first = {}, {}, {}
+    for n, v in zip(names, gvals):
+        count[v] = count.get(v, 0) + 1
+        index[n] = len(index)
+        first.setdefault(v, n)
+    probes = sorted(probes)
+    recast = set(rnd.sample(probes, min(3, len(probes))))
+    for v in probes:
+        w = v & ((1 << bits) - 1)      # the model: the value as the enum's type holds it,
+        if signed and w >> (bits - 1):
+            w -= 1 << bits
+        want = first.get(w, str(w))    # first declared name of it, else the decimal number
+        declared = want in index
+        rep.stat('strings_declared' if declared else 'strings_undeclared')
+        if declared and count[gvals[index[want]]] > 1:
+            rep.stat('strings_of_duplicated_value')
+        sources = [('int', lambda: ffi.cast(T, v))]
+        if v in recast:
+            sources.append(('enum-cdata', lambda: ffi.cast(T, ffi.cast(T, v))))
+            if -I63 <= v < I63:
+                sources.append(('long-long-cdata', lambda: ffi.cast(T, ffi.cast('long long', v))))
+        for src, make in sources:
+            if src != 'int':
+                rep.stat('strings_of_cdata_cast_from_' + src)
+            try:
+                got = ffi.string(make())
+            except Exception as ex:
+                got = 'raised %s: %s' % (type(ex).__name__, ex)
+            if got != want:
+                same = declared and got in index and gvals[index[got]] == gvals[index[want]]
+                bad(('string-not-first-name:' if same else 'string-declared:' if declared else
+                     'string-undeclared:') + base, 'ffi.string(ffi.cast(%s, %s%d)) %s = %r, '
+                    'expected %r' % (Tl, '' if src == 'int' else src + ' ', v, mode, got, want), e)
+                break
+
+
+def check_enum(rep, mode, ffi, getters, c, e, bad, taint, inline_taint):
     """taint: names of this cdef whose value is already known to differ (here or
     earlier); what is derived from them (implicit successor, X, -X, X+k) is a
-    consequence and is not judged"""
+    consequence and is not judged.  Mechanisms carry the base mode."""
+    base = mode.split('-')[0]
     g = e['gcc']
     names, gvals = e['names'], g['values']
     ok = True
     for idx, (n, k, gv) in enumerate(zip(names, e['kinds'], gvals)):
-        if e['refs'][idx] in taint or (k == 'implicit' and idx and names[idx - 1] in taint):
+        if any(r in taint for r in e['refs'][idx]) or \
+                (k == 'implicit' and idx and names[idx - 1] in taint):
             rep.stat('enumerators_derived_from_a_mismatch_not_judged')
             taint.add(n)
             ok = False
@@ -385,60 +722,74 @@ def check_enum(rep, mode, ffi, getters, c, e, bad, taint):
             try:
                 v = get(n)
             except Exception as ex:
-                bad('enumerator-raised:%s:%s' % (k, mode), '%s (%s) %s raised %s: %s; gcc: %d' %
+                bad('enumerator-raised:%s:%s' % (k, base), '%s (%s) %s raised %s: %s; gcc: %d' %
                     (n, label, mode, type(ex).__name__, str(ex)[:200], gv), e)
             else:
                 if v == gv and type(v) is int:
                     continue
-                bad('enumerator-value:%s:%s' % (k, mode), '%s (%s) %s = %r, gcc: %d' %
+                bad('enumerator-value:%s:%s' % (k, base), '%s (%s) %s = %r, gcc: %d' %
                     (n, label, mode, v, gv), e)
             taint.add(n)
             ok = False
             break
-    T = e['type']
-    if not ok or T is None:
+    # the enumerator as an array length: one more reader of its value
+    rnd = random.Random(c['seed'] ^ 0x5eed ^ len(names))
+    for idx in sorted(set([0, len(names) - 1, rnd.randrange(len(names))])):
+        if names[idx] in taint:
+            continue
+        if mode == 'abi-include' and e['line'] < variant_of(c)[1] and \
+                e['form'] in ('anon', 'field-anon'):
+            # an enum without a name of the included ffi is not emitted again in the including
+            # module, and the C type parser looks in its own module only (it says so, with an
+            # error: no value is observed)
+            rep.stat('array_lengths_not_judged_for_unnamed_enums_of_the_included_ffi')
+        elif 0 <= gvals[idx] < (1 << 62):
+            rep.stat('array_lengths_from_enumerators_' + base)
+            try:
+                got = ffi.sizeof('char[%s]' % names[idx])
+            except Exception as ex:
+                got = 'raised %s: %s' % (type(ex).__name__, str(ex)[:200])
+            if got != gvals[idx]:
+                bad('array-length-from-enumerator:' + base, "ffi.sizeof('char[%s]') %s = %r, gcc: "
+                    '%d' % (names[idx], mode, got, gvals[idx]), e)
+    if not ok or not e['types']:
         rep.stat('enums_values_only')
         return
-    size, signed = ffi.sizeof(T), int(ffi.cast(T, -1)) < 0
-    if size != g['size']:
-        bad('sizeof:' + mode, 'sizeof(%s) %s = %d, gcc: %d' % (T, mode, size, g['size']), e)
-    if signed != g['signed']:
-        bad('signedness:' + mode, '%s %s is %s, gcc: %s' %
-            (T, mode, 'signed' if signed else 'unsigned', 'signed' if g['signed'] else 'unsigned'), e)
-    if (size, signed) != (g['size'], g['signed']):
-        return
-    rep.stat('underlying_%s%d' % ('s' if signed else 'u', size * 8))
-    bits = size * 8
-    tp = ffi.typeof(T)
-    first = {}
-    for n, v in zip(names, gvals):
-        first.setdefault(v, n)
-    if tp.relements != dict(zip(names, gvals)):
-        bad('ctype-relements:' + mode, '%s.relements = %r' % (T, tp.relements), e)
-    if tp.elements != first:
-        bad('ctype-elements:' + mode, '%s.elements = %r, expected %r' % (T, tp.elements, first), e)
-    rnd = random.Random(c['seed'] ^ len(names))
-    lo, hi = (-(1 << (bits - 1)), (1 << (bits - 1)) - 1) if signed else (0, (1 << bits) - 1)
-    probes = set(gvals)
-    for v in gvals:
-        probes.update(x for x in (v - 1, v + 1) if lo <= x <= hi)
-    probes.update([lo, hi, 0, -1, lo - 1, hi + 1, rnd.randint(lo, hi), rnd.randint(-I63, I64 - 1),
-                   rnd.randint(-300, 300)])
-    for v in sorted(probes):
-        want = model_string(names, gvals, bits, signed, v)
-        declared = want in names
-        rep.stat('strings_declared' if declared else 'strings_undeclared')
-        if declared and len([x for x in gvals if x == e['gcc']['values'][names.index(want)]]) > 1:
-            rep.stat('strings_of_duplicated_value')
-        try:
-            got = ffi.string(ffi.cast(T, v))
-        except Exception as ex:
-            got = 'raised %s: %s' % (type(ex).__name__, ex)
-        if got != want:
-            same = declared and got in names and gvals[names.index(got)] == gvals[names.index(want)]
-            bad(('string-not-first-name:' if same else 'string-declared:' if declared else
-                 'string-undeclared:') + mode, 'ffi.string(ffi.cast(%r, %d)) %s = %r, expected %r'
-                % (T, v, mode, got, want), e)
+    seen = []
+    for spec, gt in zip(e['types'], g['types']):
+        Tl = spec_label(spec)
+        if base == 'api' and e['form'] == 'field-anon' and inline_taint and \
+                inline_taint.intersection(names):
+            # an enum without a C name gets its integer type from the cdef's own values also in
+            # API mode: the in-line mismatch that is already reported decides it
+            rep.stat('api_types_of_unnamed_enums_after_an_inline_value_mismatch_not_judged')
+            continue
+        rep.stat('types_named_by_' + ('field' if spec[0] == 'field' else
+                                      'tag' if spec[1].startswith('enum ') else 'typedef'))
+        T = spec[1] if spec[0] == 'name' else get_ctype(ffi, spec)
+        size, signed = ffi.sizeof(T), int(ffi.cast(T, -1)) < 0
+        if size != gt[0]:
+            bad('sizeof:' + base, 'sizeof(%s) %s = %d, gcc: %d' % (Tl, mode, size, gt[0]), e)
+        if signed != gt[1]:
+            bad('signedness:' + base, '%s %s is %s, gcc: %s' %
+                (Tl, mode, 'signed' if signed else 'unsigned', 'signed' if gt[1] else 'unsigned'), e)
+        if (size, signed) != (gt[0], gt[1]):
+            return
+        tp = ffi.typeof(T) if spec[0] == 'name' else T
+        if any(tp is x for x in seen):
+            rep.stat('types_same_ctype_as_an_earlier_name')
+            continue
+        seen.append(tp)
+        rep.stat('underlying_%s%d' % ('s' if signed else 'u', size * 8))
+        first = {}
+        for n, v in zip(names, gvals):
+            first.setdefault(v, n)
+        if tp.relements != dict(zip(names, gvals)):
+            bad('ctype-relements:' + base, '%s.relements %s = %r' % (Tl, mode, tp.relements), e)
+        if tp.elements != first:
+            bad('ctype-elements:' + base, '%s.elements %s = %r, expected %r' %
+                (Tl, mode, tp.elements, first), e)
+        check_strings(rep, mode, base, ffi, T, Tl, c, e, size * 8, signed, bad)
 
 
 def child_case(st, case):
@@ -458,23 +809,29 @@ def child_case(st, case):
             mods[i] = m
     for c in case['ctxs']:
         def bad(mech, msg, e, c=c):
-            rep.bad(mech, '%s :: %s' % (msg, e['decl'] if e else c['text']), c['id'])
+            rep.bad(mech, '%s :: %s' % (msg, e['decl'][:1500] if e else c['text'][:1500]), c['id'])
         rep.stat('cdefs')
         inline_taint = None
-        for mode in MODES:
+        var = variant_of(c)
+        for mode in MODES + ((var[0],) if var else ()):
+            base = mode.split('-')[0]
             taint = set()
             try:
                 if mode == 'api' and c['id'] in api_err:
                     raise RuntimeError('the API module does not build: ' + api_err[c['id']])
-                ffi, getters = open_mode(mode, c, st, mods)
+                ffi, getters = open_mode(mode, c, st, mods, rep)
             except Exception as ex:
                 import traceback
                 if inline_taint:      # the wrong value is already reported; this follows from it
                     rep.stat('setup_failures_after_value_mismatch_' + mode)
                 else:
-                    bad('setup-raised:%s:%s' % (mode, type(ex).__name__),
-                        traceback.format_exc()[-600:], None)
+                    bad('setup-raised:%s:%s' % (base, type(ex).__name__),
+                        mode + ': ' + traceback.format_exc()[-600:], None)
                 continue
+            rep.stat('passes_' + mode)
+            if types_first(c):
+                rep.stat('passes_with_ctypes_realized_before_enumerators')
+                touch(ffi, None, c['enums'])
             for e in c['enums']:
                 vs = e['gcc']['values']
                 rep.case((e['decl'], mode), nontrivial=len(vs) > 1 or vs[0] != 0,
@@ -483,16 +840,36 @@ def child_case(st, case):
                 if mode == 'inline':
                     rep.stat('form_' + e['form'])
                     rep.stat('regime_' + e['regime'])
+                    rep.stat('names_' + e['style'])
                     for k in e['kinds']:
                         rep.stat('kind_' + k)
+                    for ts in e['tags']:
+                        for t in ts:
+                            rep.stat('expr_' + t)
                     if len(set(vs)) < len(vs):
                         rep.stat('enums_with_duplicate_values')
+                    if e['tag_is_name']:
+                        rep.stat('enums_whose_tag_is_an_enumerator_name')
+                    ln = len(','.join(e['names']))
+                    if ln > 110:
+                        rep.stat('enums_names_over_110_chars')
+                    if ln > 220:
+                        rep.stat('enums_names_over_220_chars')
+                    if ln > 1000:
+                        rep.stat('enums_names_over_1000_chars')
+                    if len(vs) > 12:
+                        rep.stat('enums_over_12_enumerators')
+                    if len(vs) > 100:
+                        rep.stat('enums_over_100_enumerators')
+                    if any(a != b and (a.startswith(b) or b.startswith(a))
+                           for a in e['names'][:40] for b in e['names'][:40]):
+                        rep.stat('enums_with_a_name_that_is_a_prefix_of_another')
                 try:
-                    check_enum(rep, mode, ffi, getters, c, e, bad, taint)
+                    check_enum(rep, mode, ffi, getters, c, e, bad, taint, inline_taint)
                 except Exception as ex:
                     import traceback
-                    bad('check-raised:%s:%s' % (mode, type(ex).__name__),
-                        traceback.format_exc()[-600:], e)
+                    bad('check-raised:%s:%s' % (base, type(ex).__name__),
+                        mode + ': ' + traceback.format_exc()[-600:], e)
             if mode == 'inline':
                 inline_taint = taint
     return rep.result()
